@@ -32,11 +32,11 @@ LEVEL_NOTE = ("Trusted: Coq kernel, translator (constants, indexSize/lengthsOffs
               "uint32), checksum < 2^32, decompress(compress d) = d, compress of non-empty is non-empty; the table/tableSet/store lemmas are generic in "
               "crc/compress/decompress, the final induction over histories is for the instance the correspondence runs (identity compressor, constant "
               "checksum). Modelled, not verified: Go maps for novel/upstream sources (lists, any order), sort.Sort instability (any prefix-sorted "
-              "permutation), read batching (batches_cover not proved) / mmap / quota, journal and archive sources inside a store (archive index search "
+              "permutation), read batching arithmetic is proved (batches_cover, hand-modelled canReadAhead/groupSpans), mmap / quota are not modelled, journal and archive sources inside a store (archive index search "
               "is C06's prolly_bin_search_spec), GC keeper callbacks, concurrency.")
 THEOREMS = ["store_refines_map", "reads_agree", "parse_write_table", "lookup_parsed_written_table", "lookup_write_index", "lookup_any",
             "has_many_spec", "find_offsets_spec", "table_get_written", "table_has_written", "tableset_has_many_spec", "tbl_iterate",
-            "store_put_spec", "store_flush_spec", "sort_tuples_valid", "layout_pinned"]
+            "store_put_spec", "store_flush_spec", "batches_cover", "sort_tuples_valid", "layout_pinned"]
 RULE = ("histories of 8-45 operations over address pools built to collide (2-5 prefix groups of 1-5 addresses sharing all 8 prefix bytes, adjacent "
         "prefixes +-1, absent probes inside present prefix runs, suffixes differing in one byte), memtable sizes from 8 bytes (flush on almost every "
         "put) to 1 MiB, three configurations; non-trivial = at least one put accepted and one read; distinct by full history")
